@@ -41,6 +41,10 @@ def sweep_types():
     Fl1 = En("SwFlags", [("x", 1), ("y", 2**63)], "uint64", True)
     RTriv = Rec("SwTriv", [("a", P("float32")), ("b", P("float32"))])
     RMix = Rec("SwMix", [("a", P("uint64")), ("b", P("string")), ("c", Opt(P("int64"))), ("d", P("float64"))])
+    RPadA = Rec("SwPadA", [("flag", P("uint8")), ("value", P("float64"))])                 # interior padding, no tail padding
+    RPadB = Rec("SwPadB", [("a", P("float32")), ("b", P("float64")), ("c", P("bool"))])      # interior and tail padding
+    RPadC = Rec("SwPadC", [("z", P("complexfloat64")), ("k", P("int8")), ("f", P("float32"))])
+    RPadG = Rec("SwPadG", [("first", TP("T1")), ("second", TP("T2"))], ("T1", "T2"))       # padding only after instantiation
     out = []
     for p, v in [("bool", True), ("int8", -128), ("uint8", 255), ("int16", -32768), ("uint16", 65535),
                  ("int32", -2**31), ("uint32", 2**32 - 1), ("int64", -2**63), ("uint64", 2**64 - 1),
@@ -70,8 +74,41 @@ def sweep_types():
         ("vecRecTriv", [RTriv], V(N("SwTriv")), [[f32v, f32v], [f32v, f32v]]),
         ("vecRecMix", [RMix], V(N("SwMix")), [[1, "a", None, f64v], [2**63, "bb", (0, 5), f64v]]),
         ("vecOptStr", [], V(Opt(P("string"))), [None, (0, "opt-ü"), None]),
+        ("recPadA", [RPadA], N("SwPadA"), [200, f64v]),
+        ("recPadB", [RPadB], N("SwPadB"), [f32v, f64v, True]),
+        ("recPadC", [RPadC], N("SwPadC"), [(f64v, f64v), -7, f32v]),
+        ("vecRecPadA", [RPadA], V(N("SwPadA")), [[1, f64v], [255, F(0x7FF8000000000001, 64)], [0, f64v]]),
+        ("farrRecPadB", [RPadB], A(N("SwPadB"), ((None, 2),)), ((2,), [[f32v, f64v, False], [f32v, f64v, True]])),
+        ("genPad", [RPadG], N("SwPadG", (P("bool"), P("float32"))), [True, f32v]),
+        ("vecGenPad", [RPadG], V(N("SwPadG", (P("uint8"), P("float64")))), [[9, f64v], [8, f64v]]),
     ]
     return out
+
+
+def big_values():
+    """(name, type, value): single contiguous values of >= 64 KiB (one WriteBytes / ReadBytes call spans several buffers)"""
+    f32v = F(0x42BF70A4, 32)
+    f64v = F(0x4005BF0A8B145769, 64)
+    return [
+        ("bigString", P("string"), "ü" + "s" * 70000),
+        ("bigString128k", P("string"), "b" * 131072),
+        ("bigVecFloat32", V(P("float32")), [f32v] * 16384),
+        ("bigVecFloat32b", V(P("float32")), [f32v] * 20001),
+        ("bigVecFloat64", V(P("float64")), [f64v] * 9000),
+        ("bigVecUint8", V(P("uint8")), [7, 255] * 40000),
+        ("bigArrFloat32", A(P("float32"), 2), ((150, 150), [f32v] * 22500)),
+        ("bigDynComplex", A(P("complexfloat64"), None), ((5000,), [(f64v, f64v)] * 5000)),
+        ("bigVecInt32", V(P("int32")), [-(2**31), 2**31 - 1, 0, -1] * 9000),
+    ]
+
+
+def big_package():
+    protos, cases = [], []
+    for name, t, v in big_values():
+        cap = name[:1].upper() + name[1:]
+        protos.append(Proto("Bg" + cap, [("head", P("uint32")), ("v", t), ("s", S(t)), ("tail", P("string"))]))
+        cases.append(("Bg" + cap, t, v))
+    return Pkg("Bigvals", protos), cases
 
 
 def sweep_package() -> tuple:
